@@ -72,6 +72,9 @@ var findKinds = []int{OpMatchString, OpMatchRunes, OpFindString, OpFindRunes, Op
 	OpReplace, OpReplace, OpReplaceFunc, OpSplit, OpWalk2, OpCompatMatch, OpCompatSubmatchIndex, OpCompatAllSubmatch, OpCompatAllIndex, OpCompatReader, OpGroupInfo, OpReplaceAt,
 	OpFindString, OpMatchString, OpFindAllString, OpReplace, OpSplit, OpFindRunes, OpMarshalRoundTrip}
 
+// multi-match calls (they hold a partial result when a later scan is abandoned)
+var multiKinds = []int{OpReplace, OpReplace, OpReplace, OpReplaceFunc, OpSplit, OpFindAllString, OpFindAllRunes, OpCompatAllIndex, OpFindString}
+
 // randSpec draws a corpus pattern with randomised tuning knobs.
 func randSpec(r *rng, knobs bool) (ReSpec, *pat) {
 	p := &corpus[r.n(len(corpus))]
@@ -433,6 +436,14 @@ func genC12(seed uint64, tier string) *Scenario {
 		sc.Res = append(sc.Res, ReSpec{Pat: heavyFam.Pat, Opts: heavyFam.Opts})
 		heavyRe = len(sc.Res) - 1
 	}
+	// a Regexp whose multi-match calls are abandoned by the stack limit after part of the result exists
+	var limRe = -1
+	var limF limFam
+	if faulty && r.chance(1, 3) {
+		limF = lateLimit[r.n(len(lateLimit))]
+		sc.Res = append(sc.Res, ReSpec{Pat: limF.Pat, Opts: limF.Opts, HasLimit: true, Limit: limF.Limit/2 + r.n(limF.Limit)})
+		limRe = len(sc.Res) - 1
+	}
 	nops := 8 + r.n(33)
 	if tier == "thorough" && r.chance(1, 4) {
 		nops += r.n(60)
@@ -445,6 +456,9 @@ func genC12(seed uint64, tier string) *Scenario {
 			if maxD > 2*p {
 				d := 2*p + r.i64(min64(maxD-2*p, 40*p))
 				op := Op{Kind: heavyKinds[r.n(len(heavyKinds))], Re: heavyRe, In: heavyFam.In, TimeoutNs: d, Heavy: true, N: -1, Repl: "<$0>"}
+				if heavyFam.Kind == "late-blowup" {
+					op.Kind = multiKinds[r.n(len(multiKinds))]
+				}
 				if v := pristine(sc.Res[heavyRe], &op, scriptOpCap); v.capped {
 					cl.Ops = append(cl.Ops, op)
 				}
@@ -454,7 +468,19 @@ func genC12(seed uint64, tier string) *Scenario {
 				if heavyFam.Probe != "" && r.chance(2, 3) {
 					q.In = lit(heavyFam.Probe)
 				}
+				if heavyFam.Kind == "late-blowup" && r.chance(2, 3) {
+					q.Kind = multiKinds[r.n(len(multiKinds))]
+				}
 				cl.Ops = append(cl.Ops, q)
+			}
+			continue
+		}
+		if limRe >= 0 && r.chance(1, 6) {
+			in := limF.In
+			in.Rep = in.Rep/2 + r.n(in.Rep)
+			cl.Ops = append(cl.Ops, Op{Kind: multiKinds[r.n(len(multiKinds))], Re: limRe, In: in, TimeoutNs: -1, N: -1, Repl: repls[r.n(len(repls))]})
+			for k := r.n(3); k > 0; k-- {
+				cl.Ops = append(cl.Ops, Op{Kind: multiKinds[r.n(len(multiKinds))], Re: limRe, In: lit(limF.Probe[r.n(len(limF.Probe))]), TimeoutNs: -1, N: -1, Repl: repls[r.n(len(repls))]})
 			}
 			continue
 		}
